@@ -80,7 +80,9 @@ def _case(draw):
         "towers": [[draw(gen.fl(-60.0, 60.0)), draw(gen.fl(-180.0, 180.0)), draw(gen.fl(1.0, 50.0))] for _ in range(ntow)],
         "z0forcing": draw(st.sampled_from([False, True, "both"])),
         "drop_first": draw(st.integers(0, 3)) == 0,  # the configuration has one more (earlier) step than is exported
-        "met": [[draw(gen.fl(0.05, 1.0)), draw(gen.fl(-500.0, 500.0)), draw(gen.fl(0.1, 20.0)), draw(gen.fl(0.0, 360.0))]
+        "met": [[draw(gen.fl(0.05, 1.0)), draw(gen.fl(-500.0, 500.0)), draw(gen.fl(0.1, 20.0)),
+                 # bearings as they come: compass values, signed ones (-90), and unfolded ones (360, 450)
+                 draw(st.one_of(gen.fl(0.0, 360.0), gen.fl(-360.0, 720.0), st.sampled_from([360.0, -90.0, 450.0, -0.0])))]
                 for _ in range(nt)],
         "flx": [[draw(_field_values(per, fk)) for _ in range(nt)] for _ in range(ntow)],
         "conc": [[draw(_field_values(per, ck)) for _ in range(nt)] for _ in range(ntow)],
